@@ -30,10 +30,25 @@ ASSUMPTIONS = ["elements/keys have lawful __eq__/__hash__ (tokens are mapped to 
                "CPython dict preserves insertion order; itertools.tee/islice/zip/zip_longest behave as documented",
                "negative maxsplit, window size 0, chunk size <= 0, overlap_size >= chunk_size and non-boolean "
                "partition keys are outside 'valid parameters' (modelled where cheap, not constrained by the Spec)"]
-TRUSTED = ["Model/C09_Model.v is hand-written; tied to boltons.iterutils by the correspondence run on every check",
+TRUSTED = ["harness/translators/c09_ranges.py (AST of chunk_ranges -> Model/C09_PyRanges.v program) and the interpreter's "
+           "reading of that Python subset (range(), %, min, generator return)",
+           "Model/C09_Model.v is hand-written; tied to boltons.iterutils by the correspondence run on every check",
            "Spec/C09_Spec.v transcribes str.split/str.strip; cross-checked on every run against the real "
            "str.split/str.strip/re.split (fn=ref_split/ref_strip cases, counted as spec_validation)",
            "harness/c09.py token<->object mapping and serialiser"]
+
+def translators(repo):
+    """(T) tie: the source of chunk_ranges as a program of Model/C09_PyRanges.v (fail closed)."""
+    import os
+    import sys
+    sys.path.insert(0, os.path.join(os.path.dirname(os.path.abspath(__file__)), "translators"))
+    import c09_ranges
+    text = c09_ranges.translate(repo)
+    seen, total = c09_ranges.selftest(repo)
+    if seen != total:
+        raise RuntimeError("translator self-test: only %d of %d source perturbations were visible" % (seen, total))
+    return {"C09_Gen": text}
+
 
 # --------------------------------------------------------------------------
 # token <-> object mappings
@@ -195,6 +210,21 @@ def _groups(ek, out):
     return [_flat(ek, g) for g in out]
 
 
+_TY = {list: 1, tuple: 2, str: 3, bytes: 4}
+
+
+def _ty(out):
+    """type code of the groups of an output (0 none, 1 list, 2 tuple, 3 str, 4 bytes, 9 mixed/other)"""
+    codes = set(_TY.get(type(g), 9) for g in out)
+    if not codes:
+        return 0
+    return codes.pop() if len(codes) == 1 else 9
+
+
+def _groups_ty(ek, out):
+    return [_groups(ek, out), _ty(out)]
+
+
 def run_impl(case):
     from boltons import iterutils as I
     fn, ek = case["fn"], case.get("ek", "obj")
@@ -214,11 +244,14 @@ def run_impl(case):
             kw["fill"] = elem(ek, case["fill"])
         size = case["size"]
         if case["count"] is None:
-            ol = _guard(lambda: _groups(ek, I.chunked(src(), size, **kw)))
+            ol = _guard(lambda: _groups_ty(ek, I.chunked(src(), size, **kw)))
         else:
-            ol = _guard(lambda: _groups(ek, I.chunked(src(), size, case["count"], **kw)))
-        oi = _guard(lambda: _groups(ek, list(I.chunked_iter(src(), size, **kw))))
-        return {"list": ol, "iter": oi}
+            ol = _guard(lambda: _groups_ty(ek, I.chunked(src(), size, case["count"], **kw)))
+        oi = _guard(lambda: _groups_ty(ek, list(I.chunked_iter(src(), size, **kw))))
+        tl, ti = (ol[1][1] if ol[0] == "ok" else 0), (oi[1][1] if oi[0] == "ok" else 0)
+        ol = ["ok", ol[1][0]] if ol[0] == "ok" else ol
+        oi = ["ok", oi[1][0]] if oi[0] == "ok" else oi
+        return {"list": ol, "iter": oi, "ty": [tl, ti]}
     if fn in ("windowed", "pairwise"):
         kw = {}
         if case["fill"] is not None:
@@ -229,7 +262,7 @@ def run_impl(case):
         else:
             ol = I.pairwise(src(), **kw)
             oi = list(I.pairwise_iter(src(), **kw))
-        return {"list": _groups(ek, ol), "iter": _groups(ek, oi)}
+        return {"list": _groups(ek, ol), "iter": _groups(ek, oi), "ty": [_ty(ol), _ty(oi)]}
     if fn == "split":
         sep = case["sep"]
         args = []
@@ -249,7 +282,7 @@ def run_impl(case):
             args = [sepo]
         ol = I.split(src(), *args)
         oi = list(I.split_iter(src(), *args))
-        return {"list": _groups(ek, ol), "iter": _groups(ek, oi)}
+        return {"list": _groups(ek, ol), "iter": _groups(ek, oi), "ty": [_ty(ol), _ty(oi)]}
     if fn == "strip":
         f_list = {"l": I.lstrip, "r": I.rstrip, "b": I.strip}[case["which"]]
         f_iter = {"l": I.lstrip_iter, "r": I.rstrip_iter, "b": I.strip_iter}[case["which"]]
@@ -421,21 +454,25 @@ def to_coq(case, obs):
     fn = case["fn"]
     src = _l(case.get("src", []))
     if fn == "chunked":
-        return "CChunked %s %s %s %s %s %s" % (
-            src, cZ(case["size"]), copt(None if case["count"] is None else cnat(case["count"])),
+        srck = {"str": 3, "bytes": 4}.get(case["mk"], 1)
+        return "CChunked %s %s %s %s %s %s %s %s %s" % (
+            src, cnat(srck), cZ(case["size"]), copt(None if case["count"] is None else cnat(case["count"])),
             copt(None if case["fill"] is None else cnat(case["fill"])),
-            _res(obs["list"], _ll), _res(obs["iter"], _ll))
+            _res(obs["list"], _ll), _res(obs["iter"], _ll), cnat(obs["ty"][0]), cnat(obs["ty"][1]))
     if fn == "windowed":
-        return "CWindowed %s %s %s %s %s" % (src, cnat(case["size"]),
-                                            copt(None if case["fill"] is None else cnat(case["fill"])),
-                                            _ll(obs["list"]), _ll(obs["iter"]))
+        return "CWindowed %s %s %s %s %s %s %s" % (src, cnat(case["size"]),
+                                                  copt(None if case["fill"] is None else cnat(case["fill"])),
+                                                  _ll(obs["list"]), _ll(obs["iter"]),
+                                                  cnat(obs["ty"][0]), cnat(obs["ty"][1]))
     if fn == "pairwise":
-        return "CPairwise %s %s %s %s" % (src, copt(None if case["fill"] is None else cnat(case["fill"])),
-                                         _ll(obs["list"]), _ll(obs["iter"]))
+        return "CPairwise %s %s %s %s %s %s" % (src, copt(None if case["fill"] is None else cnat(case["fill"])),
+                                               _ll(obs["list"]), _ll(obs["iter"]),
+                                               cnat(obs["ty"][0]), cnat(obs["ty"][1]))
     if fn == "split":
-        return "CSplit %s %s %s %s %s" % (src, _sep(case["sep"], case["ek"]),
-                                         copt(None if case["maxsplit"] is None else cnat(case["maxsplit"])),
-                                         _ll(obs["list"]), _ll(obs["iter"]))
+        return "CSplit %s %s %s %s %s %s %s" % (src, _sep(case["sep"], case["ek"]),
+                                               copt(None if case["maxsplit"] is None else cnat(case["maxsplit"])),
+                                               _ll(obs["list"]), _ll(obs["iter"]),
+                                               cnat(obs["ty"][0]), cnat(obs["ty"][1]))
     if fn == "strip":
         return "CStrip %s %s %s %s %s" % (_WHICH[case["which"]], src, cnat(case["v"]), _l(obs["list"]), _l(obs["iter"]))
     if fn == "unique":
